@@ -19,6 +19,7 @@ type Profile struct {
 	Offline                bool // some targets start offline
 	Faults                 bool // link down/up, restart-empty
 	Transient              bool // transient error bursts
+	Standby                bool // additional (standby) connections and loss of the master only
 	Crashes                int  // max crashes
 	Rollbacks              bool
 	Sync                   bool // some Sets are synchronous
@@ -90,6 +91,15 @@ func genScenario(rt *rapid.T, p Profile) Scenario {
 				}
 			}
 		}
+		if p.Standby && rapid.IntRange(0, 3).Draw(rt, "standby") == 0 {
+			t := ids[rapid.IntRange(0, len(ids)-1).Draw(rt, "starget")]
+			if online[t] {
+				sc.Actions = append(sc.Actions, Action{Kind: "standby", Target: t})
+				if rapid.IntRange(0, 1).Draw(rt, "dropmaster") == 1 {
+					sc.Actions = append(sc.Actions, Action{Kind: "masterdown", Target: t})
+				}
+			}
+		}
 		if p.Transient && rapid.IntRange(0, 3).Draw(rt, "transient") == 0 {
 			t := ids[rapid.IntRange(0, len(ids)-1).Draw(rt, "ttarget")]
 			n := rapid.IntRange(1, 5).Draw(rt, "burst")
@@ -97,7 +107,16 @@ func genScenario(rt *rapid.T, p Profile) Scenario {
 			for k := 0; k < n; k++ {
 				cs = append(cs, []int{14, 1, 4}[rapid.IntRange(0, 2).Draw(rt, "tcode")])
 			}
-			sc.Actions = append(sc.Actions, Action{Kind: "faults", Target: t, Codes: cs})
+			if rapid.IntRange(0, 2).Draw(rt, "lost") == 0 {
+				// the device executes the request, the answer is lost (only timeouts: a
+				// device that answers Unavailable has not executed anything)
+				for k := range cs {
+					cs[k] = 4
+				}
+				sc.Actions = append(sc.Actions, Action{Kind: "lostanswer", Target: t, Codes: cs})
+			} else {
+				sc.Actions = append(sc.Actions, Action{Kind: "faults", Target: t, Codes: cs})
+			}
 		}
 		if crashes < p.Crashes && rapid.IntRange(0, 3).Draw(rt, "crash") == 0 {
 			sc.Actions = append(sc.Actions, Action{Kind: "crash"})
